@@ -558,7 +558,16 @@ class Tdf:
         # it must be encodable, its comment too, and once the old block is gone
         # no live block may follow the first free slot
         newBlock._write(BytesIO())
-        BTSString.write(256, comment)
+        TdfEntry(
+            type=newBlock.type,
+            format=newBlock.format.value,
+            offset=old_entry.offset,
+            size=newBlock.nBytes,
+            creation_date=newBlock.creation_date,
+            last_modification_date=newBlock.last_modification_date,
+            last_access_date=datetime.now(),
+            comment=comment,
+        )._write(BytesIO())
         remaining = [e.type for e in self.entries if e is not old_entry]
         remaining.append(BlockType.unusedSlot)
         firstUnused = remaining.index(BlockType.unusedSlot)
